@@ -164,7 +164,7 @@ class pile_keypress:
             key2 = a.key
         cmd = command_of(key2) if not is_none(key2) else None
         nav = (cmd is not None) and bool(either(cmd == "cursor up", cmd == "cursor down"))
-        if old._selectable and not nav:
+        if not nav:  # statement: a non-navigation key that was not consumed comes back unchanged (whether or not it was offered)
             yield "child-result-returned-unchanged", opt_eq(result, key2)
             yield "focus-unchanged", s._contents._focus == f0
             return
